@@ -30,7 +30,7 @@ RULE = (
 ASSUMPTIONS = ["the user posterior is deterministic; recorded values are compared at 1e-12 relative (L * (1/T) versus L / T)"]
 TIMEOUT = {"quick": 400, "thorough": 2400}
 REQUIRED = {"rows_rederived": 20000, "programs": 60, "cases:tempered": 20, "cases:bounded": 20, "twin_pairs": 15,
-            "mode_checks": 60, "tempering_runs": 8, "exchanged_points_checked": 10, "reloads": 10, "ensemble:failed_updates": 100, "interrupted_calls": 15, "own_generator_pairs": 30}
+            "mode_checks": 60, "tempering_runs": 8, "exchanged_points_checked": 10, "reloads": 10, "ensemble:failed_updates": 100, "interrupted_calls": 15, "own_generator_pairs": 30, "tempering_runs_with_late_replies": 8}
 
 
 def jobs(tier, seed):
@@ -415,6 +415,30 @@ def run_job(job, rec):
         n_ = min(len(sc_), len(sa))
         rec.check(n_ < 3 or not np.array_equal(sc_[1:n_], sa[1:n_]), "samplers-share-state",
                   lambda: f"{kind}: two samplers built from the same inputs produce identical trajectories", ctx)
+
+    # ------------------------------------------------ tempering with workers that answer late and out of index order
+    # (machinery shared with C08; only what C03 is about is reported here: every chain's record stays the record of its own points)
+    from vmon.props import c08
+    from vmon.rec import OnlyKeys
+
+    for c in range(1 if job["n_pt"] else 0):
+        r = mk_rng(job["seed"], "C03-pt-late", job["j"], c)
+        sp = c08.make_spec(r, 0, 0)
+        n = int(r.choice([4, 5, 6]))
+        sp.update(n=n, kinds=[str(r.choice(["gibbs", "pca", "hmc"]))] * n, ladder="tight",
+                  temps=[float(t) for t in np.cumprod([1.0] + list(r.uniform(1.3, 2.5, size=n - 1)))],
+                  starts=(r.normal(size=(n, sp["d"])) * 1.5).tolist(), seeds=[int(v) for v in r.integers(2**31, size=n + 2)], display=False,
+                  program=[("take_steps", 2), ("swap", 0)] * int(r.integers(6, 11)))
+        sch = {"name": "reverse_replies", "seed": int(r.integers(2**31)), "reply": [0.03 * (n - 1 - i) + 0.005 for i in range(n)]}
+        pctx = {"tempering": "late replies", "chains": n, "kind": sp["kinds"][0], "reply_delays": sch["reply"]}
+        rec.context = pctx
+        view = OnlyKeys(rec, {"probability-not-of-sample", "exchange-not-retempered", "exchange-wrong-position", "bystander-changed",
+                              "exchange-changed-history", "exchange-changed-length", "returned-chain-incomplete", "raised"}, prefix="pt-late:")
+        o = c08.execute(sp, sch, view, monitor=True, ctx=pctx)
+        if o.error and not rec.counters.get("violations:raised"):
+            rec.violation("raised", f"tempering run failed: {o.error}", pctx)
+        else:
+            rec.count("tempering_runs_with_late_replies")
 
     # ------------------------------------------------ points installed by parallel-tempering exchanges
     from inference.mcmc import ParallelTempering
